@@ -12,7 +12,7 @@ Wrap(steps) ==
   ELSE IF "name" \in DOMAIN Head(steps) /\ Head(steps).name = "hostile"
        THEN <<[do |-> "db"], Head(steps), [do |-> "db"]>> \o Wrap(Tail(steps))
        ELSE <<Head(steps)>> \o Wrap(Tail(steps))
-Numbered == [i \in DOMAIN All |-> [sid |-> "s" \o ToString(i), args |-> <<>>, steps |-> Wrap(All[i].steps)] @@ All[i]]
+Numbered == [i \in DOMAIN All |-> [sid |-> "s" \o ToString(i), args |-> (IF "args" \in DOMAIN All[i] THEN All[i].args ELSE <<>>), steps |-> Wrap(All[i].steps)] @@ All[i]]
 ASSUME ndJsonSerialize(OutFile, Numbered)
 ASSUME PrintT(<<"VECTORS", Len(All)>>)
 =============================================================================
